@@ -562,13 +562,17 @@ def c18q_run(tid, wcfg, cfgline, seed):
             break
         n = rnd.choice([1, 1, 2, 3, 5])
         items = [{'type': 'update', 'msg': {'attr': {1: 0, 2: [(2, [65001])], 3: '10.0.0.1'}, 'nlri': ['10.%d.%d.0/24' % (r, i)]}} for i in range(n)]
-        if rnd.random() < 0.15:
+        if rnd.random() < 0.3:
             items.append({'type': 'notification', 'msg': {'error': 6, 'sub_error': 2, 'data': b''}})
         rec.step({'k': 'enqueue', 'c': 0, 'items': items, 'cls': 'ENQUEUE', 'm': 'q%d' % len(items)}, 0)
         if rnd.random() < 0.3:
             rec.step({'k': 'rest', 'c': 0, 'rule': 'send/update', 'method': 'POST', 'cred': 'good',
                       'body': {'attr': {'1': 0, '2': [[2, [65001]]], '3': '10.0.0.1'}, 'nlri': ['10.99.%d.0/24' % r]}, 'm': 'announce'}, 0)
         rec.step({'k': 'msg', 'c': c, 'm': 'KA'}, c)
+    # the operator stops the peer at the end of half of the runs (the session may already have sent a queued NOTIFICATION)
+    if rnd.random() < 0.5:
+        rec.step({'k': 'stop', 'c': 0}, 0)
+        rec.step({'k': 'tick', 'c': 0}, 0)
     return rec.lines
 
 
@@ -689,14 +693,15 @@ def max_size_bodies():
     out = []
     u = {'cls': 'send', 'valid': True, 'etype': 'UPDATE', 'wdn': 0, 'nln': 0, 'ats': [1, 2, 3], 'ibgp': False, 'lp': -1}
     base = {'1': 0, '2': [[2, [65001]]], '3': '10.0.0.1'}
-    for total, tail in ((4096, ['10.250.0.0/16']), (4095, ['10.0.0.0/8']), (4093, [])):
-        n32 = (total - 43 - sum({16: 3, 8: 2}[int(t.split('/')[1])] for t in tail)) // 5
+    for total, tail in ((4096, ['10.250.0.0/16']), (4095, ['10.0.0.0/8']), (4093, []), (4097, ['10.250.1.0/24']), (5043, [])):
+        n32 = (total - 43 - sum({24: 4, 16: 3, 8: 2}[int(t.split('/')[1])] for t in tail)) // 5
         nl = ['10.%d.%d.%d/32' % (1 + i // 65536, (i // 256) % 256, i % 256) for i in range(n32)] + tail
-        out.append(('send/update', 'size%d' % total, {'attr': dict(base), 'nlri': nl}, dict(u, nln=len(nl))))
+        # (a request for more than 4096 octets is not a valid request: only the statistics and "a failed send writes nothing" apply)
+        out.append(('send/update', 'size%d' % total, {'attr': dict(base), 'nlri': nl}, dict(u, nln=len(nl), valid=total <= 4096)))
         pf = tuple((32, bytes([10, 1 + i // 65536, (i // 256) % 256, i % 256])) for i in range(n32)) + tuple(
             (int(t.split('/')[1]), bytes(int(x) for x in t.split('/')[0].split('.'))[:int(t.split('/')[1]) // 8]) for t in tail)
         msg = wire.simple_update(prefixes=pf, asns=(65001,), asn4=True)
-        out.append(('send/bin_update', 'binsize%d' % len(msg), {'binary_data': msg.hex()}, dict(u, nln=len(nl))))
+        out.append(('send/bin_update', 'binsize%d' % len(msg), {'binary_data': msg.hex()}, dict(u, nln=len(nl), valid=total <= 4096)))
     return out
 
 
